@@ -508,6 +508,36 @@ pub fn suite_ioread(dir: &str, seed: u64, thorough: bool, st: &mut Stats) {
         }
         out.push(&line, &items_str(&items));
     }
+    // IoReader::read_at (the header reads of a local archive): exactly the requested bytes for small and for large
+    // sizes (around and above the 1 MiB the reader allocates at first), with data following in the file; an error
+    // when the file ends before
+    {
+        let big: Vec<u8> = { let mut r2 = Rng::new(seed ^ 0x83); (0..3_600_000).map(|_| r2.next() as u8).collect() };
+        let mut cases: Vec<(u64, usize, bool)> = vec![(0, 1 << 20, true), (13, (1 << 20) + 1, true), (7, (1 << 20) - 1, true), (100, 1_572_864, true), (0, 3 << 20, true), (3_000_000, 700_000, true), (3_599_990, 10, true)];
+        for _ in 0..(n / 10) { let flen = rng.range(1, 400); let off = rng.below(flen + 20); let size = rng.range(0, 200) as usize; cases.push((off, size, false)); }
+        for (k, (off, size, use_big)) in cases.into_iter().enumerate() {
+            let file: Vec<u8> = if use_big { big.clone() } else { (0..rng.range(1, 400)).map(|_| rng.next() as u8).collect() };
+            let sched: Vec<Ev> = if k % 2 == 0 { vec![] } else { gen_sched(&mut rng, 300).into_iter().take(60).collect() };
+            let f2 = file.clone();
+            let r = std::panic::catch_unwind(move || {
+                let rt = tokio::runtime::Builder::new_current_thread().build().unwrap();
+                rt.block_on(async move {
+                    let mut reader = IoReader::new(ScriptFile::new(f2, sched, vec![0, 1]));
+                    match reader.read_at(off, size).await { Ok(b) => Ok(b.to_vec()), Err(e) => Err(if e.kind() == std::io::ErrorKind::UnexpectedEof { "EOF".to_string() } else { "IO".to_string() }) }
+                })
+            });
+            let r = r.unwrap_or_else(|_| Err("PANIC".to_string()));
+            let line = format!("ioat file={}B off={} size={}", file.len(), off, size);
+            st.evaluations += 1;
+            st.oracle_checks += 1;
+            st.count(&format!("ioread/read_at/{}", if use_big { "large" } else { "small" }));
+            let end = off as usize + size;
+            match &r {
+                Ok(d) => { if end > file.len() || d[..] != file[off as usize..end] { st.violation("C08", &format!("local read_at returned {} bytes that are not the {} requested ones", d.len(), size), &line); } }
+                Err(e) => { if e == "PANIC" { st.violation("C15", "local read_at panicked", &line); } else if end <= file.len() { st.violation("C08", &format!("local read_at failed ({}) although the file has the bytes", e), &line); } }
+            }
+        }
+    }
     // a read of the underlying file fails: the chunks delivered before are right, the stream ends with that error
     for _ in 0..(n / 6) {
         let flen = rng.range(60, 300) as usize;
